@@ -293,7 +293,7 @@ def run_property(pid, tier, seed):
             report["streams"][st["name"]] = {"cases": len(res), "args": st[tier]["args"]}
             for line, v in res:
                 evaluations += 1
-                key = v.split(" ")[0] + " " + (v.split(" ")[1] if (v.startswith("FAIL") or v.startswith("ok timeout") or v.startswith("ok rejected")) and " " in v else "")
+                key = v.split(" ")[0] + " " + (v.split(" ")[1] if (v.startswith("FAIL") or v.startswith("ok timeout") or v.startswith("ok driver-timeout") or v.startswith("ok rejected")) and " " in v else "")
                 hist[key.strip()] = hist.get(key.strip(), 0) + 1
                 if v.startswith("ok"):
                     m = re.search(r"nontrivial=(\d+)", v)
